@@ -347,11 +347,12 @@ class extract_visitor(NodeVisitor):
                 for inode in g.ifs:
                     p = self.visit_in_flow(inode, p)
 
+        if hasattr(node, 'key'):
+            # the key of a dict comprehension is evaluated before its value
+            p = self.visit_in_flow(node.key, p)
+
         elt = getattr(node, 'elt', None) or node.value  # type: ast.AST # type: ignore[union-attr]
         p = self.visit_in_flow(elt, p)
-
-        if hasattr(node, 'key'):
-            p = self.visit_in_flow(node.key, p)
 
         self.comp = comp
         self.flow = self.make_flow('comp-join', [cur, p])
